@@ -200,7 +200,7 @@ CERTS = {
     "C13": [("XVC.state_inventory_expected", _AC)],
     "C15": [("XVC.ir_complete", _B), ("XVC.shipped_version_gates", "XonshCerts.Total"), ("XVC.shipped_py_version_irrelevant_from_312", "XonshCerts.Total")],
     "C16": [("XVC.regenerated_ir_equals_shipped", "XonshCerts.Regen"), ("XVC.regenerated_ir_nonempty", "XonshCerts.Regen"), ("XVC.regenerated_xonsh_alternatives_inert", "XonshCerts.Regen")],
-    "C07": [("XVC.ir_complete", _B)],
+    "C07": [("XVC.ir_complete", _B), ("XVC.macro_sites_table", _B)],
     "C11": [("XVC.ir_complete", _B), ("XVC.range_raise_arguments_in_order", _B)],
 }
 
